@@ -41,7 +41,7 @@ theorem PlainObj.set_ttl {pp : PP} (P : PlainObj pp) (sec : Section) (hs : sec.i
       setRrTtl pp c ttl = .ok pp' ∧
       P'.lst sec = ps1 ++ ((encLabels owner ++ [0]) ++ (f8.take 4 ++ put32 ttl) ++ put16 rd.length ++ rd) :: ps2 ∧
       (∀ s, s ≠ sec → P'.lst s = P.lst s) ∧ P'.qls = P.qls ∧ P'.q4 = P.q4 ∧ P'.hdr = P.hdr ∧
-      pp' = { pp with packet := pp'.packet } := by
+      pp' = { pp with packet := pp'.packet } ∧ GoodLabels owner ∧ get16 f8 0 ≠ 41 := by
   obtain ⟨owner, f8, rd, pre, post, ob', oa', hpk, hprel, hrc, hgo, hf8, hlt, hnon, hr', hty⟩ := P.shape_at sec hs hsplit
   have hne' : ne = pre.length + labSum owner + 1 := by
     rw [← hprel] at hr
@@ -88,7 +88,7 @@ theorem PlainObj.set_ttl {pp : PP} (P : PlainObj pp) (sec : Section) (hs : sec.i
       rw [this]
       split <;> simp)
     P.mc
-  exact ⟨owner, f8, rd, _, P', hrc, hf8, hrun, f1, f2, f3, f4, f5, rfl⟩
+  exact ⟨owner, f8, rd, _, P', hrc, hf8, hrun, f1, f2, f3, f4, f5, rfl, hgo, h41⟩
 
 /-- **`set_rr_ip`** through a cursor on an A / AAAA record of a plain object, with an address of the
 record's family: exactly the address bytes of that record are replaced -/
@@ -102,7 +102,7 @@ theorem PlainObj.set_ip {pp : PP} (P : PlainObj pp) (sec : Section) (hs : sec.is
       setRrIp pp c ip = .ok (pp', none) ∧
       P'.lst sec = ps1 ++ ((encLabels owner ++ [0]) ++ f8 ++ put16 rd.length ++ ip) :: ps2 ∧
       (∀ s, s ≠ sec → P'.lst s = P.lst s) ∧ P'.qls = P.qls ∧ P'.q4 = P.q4 ∧ P'.hdr = P.hdr ∧
-      pp' = { pp with packet := pp'.packet } := by
+      pp' = { pp with packet := pp'.packet } ∧ GoodLabels owner ∧ get16 f8 0 ≠ 41 := by
   obtain ⟨owner, f8, rd, pre, post, ob', oa', hpk, hprel, hrc, hgo, hf8, hlt, hnon, hr', hty⟩ := P.shape_at sec hs hsplit
   have hne' : ne = pre.length + labSum owner + 1 := by
     rw [← hprel] at hr
@@ -167,7 +167,7 @@ theorem PlainObj.set_ip {pp : PP} (P : PlainObj pp) (sec : Section) (hs : sec.is
     (by rw [hlen']; split <;> simp)
     (by rw [hlen']; split <;> simp)
     P.mc
-  exact ⟨owner, f8, rd, _, P', hrc, hf8, hrdl, hrun, f1, f2, f3, f4, f5, rfl⟩
+  exact ⟨owner, f8, rd, _, P', hrc, hf8, hrdl, hrun, f1, f2, f3, f4, f5, rfl, hgo, h41⟩
 
 /-- `set_rr_ip` with an address of the wrong family, or on a record that is neither A nor AAAA: an
 error, the object unchanged (any object) -/
